@@ -1504,6 +1504,8 @@ fn sync_block() -> impl Strategy<Value = RawBlock> {
 		diff: 1,
 		neg: Neg::None,
 		neg_pick: 0,
+			hdr: 0,
+			inp: 0,
 	})
 }
 
@@ -1675,6 +1677,8 @@ fn big_raw(seed: u64, i: u64) -> RawBlock {
 		diff: 1,
 		neg: Neg::None,
 		neg_pick: 0,
+			hdr: 0,
+			inp: 0,
 	}
 }
 
@@ -1788,6 +1792,8 @@ impl Source {
 				diff: 1,
 				neg: Neg::None,
 				neg_pick: 0,
+			hdr: 0,
+			inp: 0,
 			},
 			what,
 		)?;
